@@ -295,8 +295,28 @@ def allowed (guide : Guide) (s : State) : Action → Bool
 def tauSucc (v : Variant) (cap : Nat) (guide : Guide) (s : State) : List State :=
   ((tauActions s).filter (allowed guide s)).filterMap (step v cap s)
 
+/-- The part of the state that decides which actions are enabled now and later (guards of `step`
+and of `allowed` read nothing else); the remaining fields only record history. Two states with
+the same core have the same visible futures, so the search keeps one of them. -/
+structure Core where
+  inCall : List Entry
+  sent : List Entry
+  queue : List Entry
+  fpc : FPc
+  syncReq : Bool
+  asyncDone : Bool
+  flush : FlushPc
+  nLogged : Nat
+deriving DecidableEq
+
+def State.core (s : State) : Core :=
+  ⟨s.inCall, s.sent, s.queue, s.fpc, s.syncReq, s.asyncDone, s.flush, s.logged.length⟩
+
+def known (seen : List State) (s : State) : Bool :=
+  seen.any (fun x => decide (x.core = s.core))
+
 def insertNew (seen : List State) (s : State) : List State :=
-  if seen.contains s then seen else s :: seen
+  if known seen s then seen else s :: seen
 
 /-- breadth-first τ-closure. Every τ-step either completes a pending send or advances the flusher /
 the flush call along a path without cycles (a `Write` is visible), so the depth is bounded by
@@ -306,7 +326,7 @@ def closure (v : Variant) (cap : Nat) (guide : Guide) : Nat → List State → L
   | _ + 1, [], seen => seen
   | fuel + 1, frontier, seen =>
     let next := frontier.foldl (fun acc s => (tauSucc v cap guide s).foldl insertNew acc) []
-    let fresh := next.filter (fun s => !seen.contains s)
+    let fresh := next.filter (fun s => !known seen s)
     closure v cap guide fuel fresh (fresh ++ seen)
 
 def closureOf (v : Variant) (cap : Nat) (guide : Guide) (ss : List State) : List State :=
